@@ -387,6 +387,16 @@ class Interp(object):
                 return not neg
             if v is sp.false:
                 return neg
+        if isinstance(test, ast.Compare) and len(test.ops) == 1 and isinstance(test.left, ast.Name) and isinstance(test.comparators[0], ast.Constant) \
+                and isinstance(test.comparators[0].value, int) and not isinstance(test.comparators[0].value, bool):
+            v = st.scal.get(test.left.id)
+            if isinstance(v, sp.Integer):
+                a, b = int(v), test.comparators[0].value
+                op = test.ops[0]
+                r = a == b if isinstance(op, ast.Eq) else a != b if isinstance(op, ast.NotEq) else a < b if isinstance(op, ast.Lt) else a <= b if isinstance(op, ast.LtE) \
+                    else a > b if isinstance(op, ast.Gt) else a >= b if isinstance(op, ast.GtE) else None
+                if r is not None:
+                    return r != neg
         return None
 
     # ---- statements
@@ -647,9 +657,20 @@ class Interp(object):
             # the first UNROLL passes through the body from the precise entry state (no generalisation): what fails here fails for real data shapes
             exits = [st]
             cur = [st.copy()]
+            # `for ii in range(N)`: on the k-th pass the loop variable is the number k (so `if ii == 0:` is decided)
+            lv, start = None, None
+            if isinstance(node, ast.For) and isinstance(node.target, ast.Name) and isinstance(node.iter, ast.Call) and ekey(node.iter.func) == "range" and not node.iter.keywords:
+                a = node.iter.args
+                if len(a) == 1:
+                    lv, start = node.target.id, 0
+                elif len(a) >= 2 and isinstance(a[0], ast.Constant) and isinstance(a[0].value, int) and (len(a) == 2 or (isinstance(a[2], ast.Constant) and a[2].value == 1)):
+                    lv, start = node.target.id, a[0].value
             for k in range(UNROLL):
                 if not cur:
                     break
+                if lv is not None:
+                    for c in cur:
+                        c.scal[lv] = sp.Integer(start + k)
                 out = self.block(body, cur)
                 backs = out.next + out.cont
                 for b in backs:
